@@ -1,10 +1,8 @@
 (* C04 Every PURL value handed out is valid and normalised *)
 Load "coq/props/Hdr".
 From PM Require Import DecQual ParseInv BuildG BuildGen C01P C04 Builder Assemble Exec.
-Lemma src_rt : rt_ok cfg. Proof. apply conds_rt_ok. vm_compute. reflexivity. Qed.
-Lemma src_tbl : tbl_ok cfg. Proof. apply conds_tbl_ok. vm_compute. reflexivity. Qed.
-Lemma src_cfg_ok : cfg_ok cfg. Proof. exact (rt_cfg _ src_rt). Qed.
-Ltac sc := sidecond_with src_rt src_tbl.
+Lemma src_rt : rt_ok cfg. Proof. prove_rt. Qed.
+Lemma src_cfg_ok : cfg_ok cfg. Proof. sc. Qed.
 (* the invariant, for ANY type parameter whose hook hands back a qualifier collection that the collection's API can produce
    (hook_sane; otherwise the hook edits the parts arbitrarily): parser and builder *)
 Theorem C04_parse_any_shape : forall (T E : Type) (sh : shape T E) s t p, hook_sane cfg sh -> parse cfg sh s = Ok (t, p) -> Inv cfg p.
